@@ -93,6 +93,15 @@ def handle (j : Json) : Except String Json := do
     return resToJson [a] (resOfOpt (a.addLeg (← legSOfJson (← field j "leg")) (← getInt (← field j "i"))
       (← getInt (← field j "axis")) (← boolList (← field j "nz"))))
   | "flip_leg" => let a ← getA; return resToJson [a] (resOfOpt (a.flipLeg (← getNat (← field j "k"))))
+  | "charge_map" =>
+    let a ← getA
+    let kind ← getStr (← field j "kind")
+    if kind == "scale" then
+      return resToJson [a] (.one (a.applyChargeMapping (ArrS.scaleMap a.mods (← getInt (← field j "k")))))
+    else
+      let pairs ← listOf natList (← field j "pairs")
+      let ps := pairs.map (fun p => (p.getD 0 0, p.getD 1 0))
+      return resToJson [a] (.one (a.applyChargeMapping (ArrS.shiftMap a.mods ps (← getInt (← field j "dx")))))
   | "extend" =>
     let a ← getA
     return resToJson [a] (resOfOpt (a.extend (← getInt (← field j "axis")) (← legOfJson (← field j "extra"))))
@@ -128,6 +137,14 @@ def handle (j : Json) : Except String Json := do
     let a ← getA
     return resToJson [a] (resOfOpt (a.combineLegs (← natListList (← field j "groups")) (← optIntList j "new_axes")
       (← listOf (optOf getInt) (← field j "qconjs"))))
+  | "combine_pipes" =>
+    let a ← getA
+    return resToJson [a] (resOfOpt (a.combineGivenPipes (← natListList (← field j "groups")) (← optIntList j "new_axes")
+      (← listOf pipeOfJson (← field j "pipes"))))
+  | "make_pipe" =>
+    let legs ← listOf legOfJson (← field j "legs")
+    let p := Pipe.init legs (← getInt (← field j "qconj")) (← getBool (← field j "sort")) (← getBool (← field j "bunch"))
+    return obj [("pipe", pipeToJson p), ("res", Json.null), ("wf_in", Json.arr #[])]
   | "sort_legcharge" =>
     let a ← getA
     return resToJson [a] (resOfOpt (a.sortLegcharge (← boolList (← field j "sort")) (← boolList (← field j "bunch"))))
